@@ -676,6 +676,40 @@ def chi_values(node, stop):
     return vals
 
 
+def chi_guarded(node, stop):
+    """is the statement inside a test that mentions chi?"""
+    p = parent(node)
+    while p is not None and p is not stop:
+        if isinstance(p, ast.If) and any(isinstance(x, ast.Name) and x.id == "chi" for x in ast.walk(p.test)):
+            return True
+        p = parent(p)
+    return False
+
+
+def kinetic_chi(fn):
+    """the value the local `chi` holds in the kinetic-electron configuration: ("const", v, stmt) when the only binding of chi that
+    configuration runs is `chi = <integer literal>` in the kinetic branch of the adiabaticElectrons test; ("unknown",) otherwise
+    (no binding, a formal parameter, a binding outside the test, any other form)"""
+    cands, unknown = [], False
+    if any(a.arg == "chi" for a in fn.args.args + fn.args.kwonlyargs + fn.args.posonlyargs):
+        unknown = True
+    for n in ast.walk(fn):
+        if isinstance(n, ast.Name) and n.id == "chi" and isinstance(n.ctx, ast.Store):
+            st = _stmt_of(n)
+            br = electron_branch(st, fn)
+            if br == "adiabatic":
+                continue
+            if br == "kinetic" and isinstance(st, ast.Assign) and len(st.targets) == 1 and st.targets[0] is n and \
+                    isinstance(st.value, ast.Constant) and type(st.value.value) is int and \
+                    isinstance(parent(st), ast.If) and electron_branch(parent(st), fn) == "both":
+                cands.append(st)
+            else:
+                unknown = True
+    if len(cands) == 1 and not unknown:
+        return ("const", cands[0].value.value, cands[0])
+    return ("unknown",)
+
+
 def _uses_m0_operator(chk):
     """does any method of the two solver classes mention self._stiffness0?"""
     mod = chk.mod(U.POISSON)
@@ -931,6 +965,7 @@ def m0_operator(chk):
     # the configurations each assignment runs under; the last assignment (in program order) of a configuration is its operator
     all_known = True
     last = {}
+    kchi = kinetic_chi(fn)
     for d in sorted(defs, key=lambda n: env.order.get(id(n), 0)):
         br = electron_branch(d, fn)
         vals = chi_values(d, fn)
@@ -941,7 +976,24 @@ def m0_operator(chk):
                    func=f"{QN}.__init__")
             continue
         for case in CASES:
-            if (br == "both" or br == case[0]) and (case[1] is None or case[1] in vals):
+            if not (br == "both" or br == case[0]):
+                continue
+            if case[1] is None:
+                # ASSUMPTION (checked): a test on chi around the assignment selects among the kinetic-electron runs as well: whether
+                # the kinetic configuration runs this assignment depends on the value chi holds there (`chi = 0` in the kinetic
+                # branch makes the chi == 0 arm the operator of kinetic electrons); that value must be established
+                if chi_guarded(d, fn):
+                    if kchi[0] == "const" and kchi[1] in (0, 1) and env.order.get(id(kchi[2]), 1 << 30) < env.order.get(id(d), -1):
+                        if kchi[1] not in vals:
+                            continue
+                    else:
+                        all_known = False
+                        chk.ob("F5-m0-convention", d, f"m=0 operator: {src(d.value)[:60]}", None,
+                               "the assignment is guarded by a test on chi and also serves kinetic electrons; the value of chi in "
+                               "that configuration was not established", file=U.POISSON, func=f"{QN}.__init__")
+                        continue
+                last[case] = d
+            elif case[1] in vals:
                 last[case] = d
     covered = set()
     for case, d in last.items():
@@ -960,7 +1012,8 @@ def m0_operator(chk):
         # whatever signs the blocks are stored with): relational, not against today's expression; VIOLATED only when every guard on
         # adiabaticElectrons / chi around the assignments was recognised (`all_known`)
         try:
-            got = vec(val, case[1])
+            kv = kchi[1] if kchi[0] == "const" and env.order.get(id(kchi[2]), 1 << 30) < env.order.get(id(d), -1) else None
+            got = vec(val, case[1] if case[1] is not None else kv)
             ok = got == w
             covered.add(tag)
             chk.ob("F5-m0-convention", d, f"m=0 operator for {tag}: {src(d.value)[:60]}", ok if (ok or all_known) else None,
